@@ -4,7 +4,7 @@
    implementation differ. *)
 From Coq Require Import Floats.
 From JM Require Import Model.Base Model.Num Model.Utf8 Model.Value Model.JsonText
-     Model.Lexer Model.Parser Model.Slice Model.Functions Model.Interp Model.Api Model.Cli Inst.FloatNum.
+     Model.Lexer Model.Parser Model.Slice Model.Functions Model.Interp Model.Api Model.Cli Model.GoVal Inst.FloatNum.
 
 Definition ord_id (m : @obj FloatNum) : @obj FloatNum := m.
 
@@ -184,6 +184,24 @@ Definition ccase_ok (c : ccase) : bool :=
   | None => false
   end.
 
+(* ---- Go-typed documents: Search(expr, structs/pointers/typed slices), normalised through JSON ---- *)
+Record gcase := GCase { gc_id : nat; gc_expr : bytes; gc_doc : @gval FloatNum; gc_go : obs }.
+Definition gobs (c : gcase) : obs :=
+  match compile (gc_expr c) with
+  | Ok n =>
+    match search_go ascii_cap (exec_fuel n) n (gc_doc c) with
+    | Ok r => OVal (norm r)
+    | Err _ => OEvalErr
+    | Panic => OPanic
+    | OutOfFuel => OFuel
+    end
+  | Err (ESyntax o) => OSyn o
+  | Err _ => OCompErr
+  | Panic => OPanic
+  | OutOfFuel => OFuel
+  end.
+Definition gcase_ok (c : gcase) : bool := obs_match Exact false (gobs c) (gc_go c).
+
 (* byte strings are written in hexadecimal in generated files *)
 Definition hexv (a : Ascii.ascii) : N :=
   let n := Ascii.N_of_ascii a in
@@ -199,3 +217,14 @@ Arguments hx s%string_scope.
 Definition N_ := @VNum FloatNum.
 Definition F (neg : bool) (m e : Z) : @value FloatNum := VNum (mkf neg m e).
 Definition T (ty : tokType) (v : bytes) (p l : Z) : token := Token ty v p l.
+(* Go-typed values *)
+Definition gN := @GNull FloatNum.
+Definition gB := @GBool FloatNum.
+Definition gF (neg : bool) (m e : Z) : @gval FloatNum := GNum (mkf neg m e).
+Definition gS := @GStr FloatNum.
+Definition gA := @GArr FloatNum.
+Definition gO := @GObj FloatNum.
+Definition gT := @GStruct FloatNum.
+Definition gP := @GPtr FloatNum.
+Definition gL := @GSlice FloatNum.
+Definition gkv (k : bytes) (v : @gval FloatNum) : bytes * @gval FloatNum := (k, v).
